@@ -451,16 +451,18 @@ func replaySQLHist(args []string) error {
 	dir := vx.Scratch("replayhist")
 	defer os.RemoveAll(dir)
 	rep := &vx.Report{}
-	rows := []vx.Row{{{2, 1}, {3, 1}}, {{2, 1}}, {{2, 2}, {3, 2}}}
+	// the two files differ in content: count(a = v1) is 2 in file 1 and 1 in file 2
+	rowsOf := map[int][]vx.Row{1: {{{2, 1}, {3, 1}}, {{2, 1}}}, 2: {{{2, 1}, {3, 1}}, {{2, 2}}, {{2, 2}, {3, 2}}}}
+	wantOf := map[int]string{1: "2", 2: "1"}
 	paths := map[int]string{}
 	for f := 1; f <= 2; f++ {
-		p, err := buildIndex(dict, dir, fmt.Sprintf("f%d.updog", f), "mem", rows[:f+1])
+		p, err := buildIndex(dict, dir, fmt.Sprintf("f%d.updog", f), "mem", rowsOf[f])
 		if err != nil {
 			return err
 		}
 		paths[f] = p
 	}
-	optOf := map[int]string{1: "", 2: "?preload=true&lrucache=true&lrucachesize=4096"}
+	optOf := map[int]string{1: "?lrucache=true&lrucachesize=100000", 2: "?preload=true&lrucache=true&lrucachesize=4096"}
 	text := renderQuery(dict, vx.Query{E: &vx.Expr{Op: "eq", Col: 2, Val: 1}})
 	err := vx.ReadLines(*in, func(line []byte) error {
 		var ln histLine
@@ -489,10 +491,7 @@ func replaySQLHist(args []string) error {
 				files[st.D] = st.F
 			case "query":
 				db := dbs[st.D]
-				want := "2"
-				if files[st.D] == 2 {
-					want = "2"
-				}
+				want := wantOf[files[st.D]]
 				usePrep := rng.Intn(2) == 0
 				o, _ := watchdog(8*time.Second, func() error {
 					var got sqlRows
@@ -565,10 +564,11 @@ func recordSQLConc(args []string) error {
 	dict := identDict(rng, 4)
 	dir := vx.Scratch("recsqlconc")
 	defer os.RemoveAll(dir)
-	rows := []vx.Row{{{2, 1}, {3, 1}}, {{2, 1}}, {{2, 2}, {3, 2}}}
+	rowsOf := map[int][]vx.Row{1: {{{2, 1}, {3, 1}}, {{2, 1}}}, 2: {{{2, 1}, {3, 1}}, {{2, 2}}, {{2, 2}, {3, 2}}}}
+	wantOf := map[int]string{1: "2", 2: "1"}
 	paths := map[int]string{}
 	for f := 1; f <= 2; f++ {
-		p, err := buildIndex(dict, dir, fmt.Sprintf("f%d.updog", f), "mem", rows)
+		p, err := buildIndex(dict, dir, fmt.Sprintf("f%d.updog", f), "mem", rowsOf[f])
 		if err != nil {
 			return err
 		}
@@ -587,7 +587,7 @@ func recordSQLConc(args []string) error {
 			if nh == 2 && d == 1 && rng.Intn(2) == 0 {
 				fileOf[d] = fileOf[0] // two handles on the same file and option string share the connection
 			}
-			dbs[d], _ = sql.Open("updog", "file:"+paths[fileOf[d]])
+			dbs[d], _ = sql.Open("updog", "file:"+paths[fileOf[d]]+"?lrucache=true&lrucachesize=100000")
 			if rng.Intn(3) == 0 {
 				dbs[d].SetMaxOpenConns(1 + rng.Intn(3))
 			}
@@ -607,7 +607,7 @@ func recordSQLConc(args []string) error {
 						if got.Panic != "" {
 							panic(got.Panic)
 						}
-						if got.Err || len(got.Rows) != 1 || got.Rows[0][0] != "2" {
+						if got.Err || len(got.Rows) != 1 || got.Rows[0][0] != wantOf[fileOf[d]] {
 							return fmt.Errorf("wrong rows")
 						}
 						return nil
